@@ -14,7 +14,7 @@ import z3
 from .. import boot, common, sx, rawsx, gx, actions
 from . import lexsx, c03 as c03mod
 
-LAYOUTS_BEFORE = ['', ' ', '\t', '\n', '/*c*/', ' /*c*/ ', '//c\n', '\n\n', '/*\n*/']
+LAYOUTS_BEFORE = ['', ' ', '\t', '\n', '/*c*/', ' /*c*/ ', '//c\n', '\n\n', '/*\n*/', '\xa0', '\x0b\x0c', '\ufeff\u2003', '\r\n', '\u2028']
 KNOWN_HEADER = 'C05: layout between the ) of an if/for/while/with header and a regex literal makes it a division'
 KNOWN_FUNCDECL = 'C05: a regex literal after the } of a function declaration is read as a division'
 KNOWN_RESERVED_PROP = 'C05: a reserved word used as a property name is treated as an operator/keyword before `/`'
@@ -87,16 +87,19 @@ def _tjob(chunk):
     sp = _TL['sp']
     bad = []
     n = 0
-    for w in chunk:
+    sp0 = sp
+    for w, rspell in [(w, r) for w in chunk for r in ((None, '/=/', '/[/*]\\//g', '/*/'.replace('*', '\\*')) if 'REGEX' in w else (None,))]:
+        # the regex literal also in spellings whose first characters are those of other slash-initial tokens
+        sp = sp0 if rspell is None else dict(sp0, REGEX=rspell)
         ref = engine_tree(w, sp)
         if ref is None:
             continue
         toks = [sp[t] for t in w]
         slash = [i for i, t in enumerate(w) if t in ('DIV', 'DIVEQUAL', 'REGEX')]
         for i in slash:
-            for lay in LAYOUTS_BEFORE:
+            for lay in (LAYOUTS_BEFORE if rspell is None else LAYOUTS_BEFORE[:4]):
                 # a line terminator directly after a restricted keyword or before ++/-- legitimately changes the parse
-                if any(c in lay for c in '\n') and i > 0 and w[i - 1] in ('RETURN', 'BREAK', 'CONTINUE', 'THROW'):
+                if any(c in lay for c in '\n\r\u2028\u2029') and i > 0 and w[i - 1] in ('RETURN', 'BREAK', 'CONTINUE', 'THROW'):
                     continue
                 text = ''
                 for j, t in enumerate(toks):
